@@ -334,9 +334,9 @@ def run_job(job):
 
 def make_jobs(tier, seed):
     rng = random.Random(50000 + seed)
-    n = 2000 if tier == 'quick' else 60000
+    n = 2000 if tier == 'quick' else 250000
     subs = [{'seed': rng.randrange(1 << 30), 'i': i, 'length': rng.choice([8, 20, 40, 60])} for i in range(n)]
     jobs = [{'kind': 'batch', 'batch': subs[i:i + 25]} for i in range(0, n, 25)]
-    for i in range(160 if tier == 'quick' else 3000):
+    for i in range(160 if tier == 'quick' else 10000):
         jobs.append({'kind': 'session', 'seed': rng.randrange(1 << 30), 'i': i})
     return jobs
